@@ -149,7 +149,7 @@ def exhaustive(chk: Check, caps, nkeys, depth):
 
 def run(chk: Check) -> int:
     proof = proof_stage(PROP, "driver_c01", chk.thorough) if not getattr(chk, "skip_proof", False) else None
-    n = chk.budget(6000, 40000)
+    n = chk.budget(4000, 40000)
     found = 0
     ndiff = 0
     pending = None
